@@ -384,6 +384,8 @@ static void run_float(uint64_t seed, long n, int level)
       if (len % 4 == 0 || len < 24) {
          do_comb(&r, vrange(&r, 15, 64), len, 0);
          do_comb(&r, vrange(&r, 15, 64), len, 1);
+         do_comb(&r, 15, len, 1);             /* in place at COMBFILTER_MINPERIOD, the smallest period the codec passes */
+         if (len % 8 == 0) do_comb(&r, 1024, len, 1);   /* … and at COMBFILTER_MAXPERIOD */
       }
    }
    for (i = 0; i < n; i++) {
@@ -400,7 +402,7 @@ static void run_float(uint64_t seed, long n, int level)
          do_pitchxcorr(&r, l2, mp); break;
       }
       default: {
-         int N = (len > 960 ? 960 : len); int T = vchance(&r, 80) ? vrange(&r, 15, 200) : vrange(&r, 201, 1024);
+         int N = (len > 960 ? 960 : len); int T = vchance(&r, 15) ? 15 : (vchance(&r, 80) ? vrange(&r, 15, 200) : vrange(&r, 201, 1024));
          if (vchance(&r, 85)) N = N / 4 * 4;
          if (k == 6) { if (vchance(&r, 10)) T = vrange(&r, 2, 14); do_comb(&r, T, N, 0); }
          else do_comb(&r, T, N, 1);
